@@ -57,6 +57,10 @@ def source_of(case):
     return "\n".join(parts)
 
 
+# a second known-finding class of a spec (code 3)
+SECOND_CLASS = {"spec_C04": "kf_C04_accessor_gap"}
+
+
 def run(out, build, problems, prop, tier, specs, gen_cases, nquick, nthorough, rule, replay=None, known=None):
     """Adds what it finds to the Outcome `out`; `known` maps a spec name to the known-finding id
     reported when that spec returns 1."""
@@ -104,16 +108,20 @@ def run(out, build, problems, prop, tier, specs, gen_cases, nquick, nthorough, r
                 spec_fail.append((s, c, o))
             elif code[1 + i] == 1:
                 known_hits[s] += 1
+            elif code[1 + i] == 3:
+                known_hits[s + "#2"] += 1
             if code[1 + ns + i] == 2:
                 model_fail.append((s, c, o))
     kf = C.load_known_findings()
     listed = {f["id"]: f for f in kf.get("findings", []) if f["property"] == prop}
     for s, n in known_hits.items():
-        fid = (known or {}).get(s)
+        fid = (known or {}).get(s) if not s.endswith("#2") else SECOND_CLASS.get(s[:-2])
         if fid and fid in listed:
             out.known_finding("%s (%d histories in the class on this run)" % (listed[fid]["what"], n))
         else:
-            c, o = next((c, o) for (c, o), code in zip(live, codes) if code[1 + specs.index(s)] == 1)
+            want = 3 if s.endswith("#2") else 1
+            s = s[:-2] if s.endswith("#2") else s
+            c, o = next((c, o) for (c, o), code in zip(live, codes) if code[1 + specs.index(s)] == want)
             out.violation("%s differs from the declared contracts in a class that is not a listed finding" % s,
                           {"case": c, "observation": strip(o), "script": source_of(c)})
     spec_fail.sort(key=lambda x: len(json.dumps(x[1])))
